@@ -283,6 +283,9 @@ Proof.
   unfold group_by_consistent in W. destruct (validate_group_by (sel_list sel) (sel_group sel)); [discriminate|reflexivity].
 Qed.
 
+Theorem roundtrip_renders o s toks : wf_stmt o s = true -> renders o s toks -> parse toks = POk s.
+Proof. intros W R. rewrite R. exact (roundtrip o s W). Qed.
+
 Theorem roundtrip_tokens o s toks : wf_stmt o s = true -> renders o s (map classify toks) ->
   parse_tokens toks = POk s.
 Proof. unfold renders, parse_tokens. intros W ->. apply roundtrip; auto. Qed.
